@@ -109,6 +109,7 @@ impl Db {
     }
 
     pub fn query(&self, sql: &str) -> Result<(Vec<String>, Rows), String> {
+        let sql = &sqlite_compat(sql);
         let mut st = self.conn.prepare(sql).map_err(|e| e.to_string())?;
         let names: Vec<String> = st.column_names().iter().map(|s| s.to_string()).collect();
         let n = names.len();
@@ -129,4 +130,11 @@ pub fn bag(rows: &Rows) -> Vec<String> { let mut v: Vec<String> = rows.iter().ma
 pub fn set_noise(sql: &str, z: f64) -> String {
     let pat = "((SQRT((-2) * (LN(RANDOM())))) * (COS((6.283185307179586) * (RANDOM()))))";
     sql.replace(pat, &format!("({:?})", z))
+}
+
+/// SQLite does not read a column list after a derived-table alias (`(VALUES ...) AS "t" ("c")`): the
+/// enclosing CTE already names the columns, so the inner list is dropped.
+pub fn sqlite_compat(sql: &str) -> String {
+    let re = regex::Regex::new(r#"\)\) AS "([^"]*)" \((?:"[^"]*"(?:, )?)+\)"#).unwrap();
+    re.replace_all(sql, r#")) AS "$1""#).to_string()
 }
